@@ -1702,6 +1702,8 @@ def run(ck: Ck) -> None:
             # the same two methods executed with their arguments given: premise of c13_listing_tables_list_matching
             'listing_filenames_with_arguments_selects_extension_and_folder_prefix': 'walks_ok g_walks_filenames',
             'listing_fileinfos_with_arguments_selects_extension_and_folder_prefix': 'walks_ok g_walks_fileinfos',
+            # premise of c13_extract_all_writes_every_file
+            'extract_all_writes_every_file_under_its_listed_name': 'walk_ok false false g_extract_walk',
             'tree_strings_all_go_through_the_codec': 'andb g_tree_strings_read_by_iter_nullstr g_tree_strings_written_by_write_nullstring',
         }, name='vpkinst')
         import time as _t
